@@ -180,6 +180,8 @@ func GenPlan(prop string, seed int64, tier string, guards map[string]bool) *Plan
 	default:
 		panic("no generator for " + prop)
 	}
+	// drawn last, from its own stream: how the handler sees the end of a body
+	p.Config.LateEOF = rand.New(rand.NewSource(seed^0x6c617465)).Intn(4) == 0
 	return p
 }
 
